@@ -11,7 +11,14 @@
      about the definitions of the files read ([failure_event_tied]).
    * [clean_only_if_every_definition_analysed]: exit status 0 only if every
      definition the parser yields for a named file that parses was taken up
-     by the runner. *)
+     by the runner.
+   * [tied_project_is_wf] (fifth pass): the project of a run is well formed
+     ([wf_project]: one definition per key) whenever [name_id] is injective —
+     `remove_syntactic_sugar` hands back a selection of the names that went in,
+     [survivors] makes at most one definition per name handed back, and no
+     name is both a function and a template of [keep_first].  The theorems
+     about a run ([inj_...]) take the injectivity of [name_id] as their
+     hypothesis, no longer [wf_project] of the tied project. *)
 From Coq Require Import ZArith NArith Lia Permutation.
 Require Coq.Strings.String.
 Require Import Gen.Category Model.Runner Spec.RunnerSpec Proofs.RunnerProofs.
@@ -19,6 +26,7 @@ From stdpp Require Import list.
 Require Import Model.Includes Model.Front Spec.IncludesSpec Model.FrontStages Spec.NoSilentSpec Proofs.IncludesProofs.
 Require Model.Ast Model.Desugar Model.LiftFull Model.PipelineMirrors Spec.ExpandSpec.
 Require Import Proofs.NoSilentStages Proofs.NoSilentProofs.
+Require Proofs.DesugarProofs.
 
 (* ====================================================================== *)
 (* the two folds over the definitions                                       *)
@@ -192,6 +200,111 @@ Proof.
 Qed.
 
 (* ====================================================================== *)
+(* the definitions handed to the runner have pairwise different names       *)
+(* ====================================================================== *)
+
+(* `remove_syntactic_sugar` goes over the two maps in order and drops the rejected entries: the names handed back
+   are pairwise different when those that went in are, and each of them went in *)
+Lemma desugar_templates_names : forall env lib ts acc reps acc' reps',
+  Desugar.desugar_templates env lib ts acc reps = Desugar.DOk (acc', reps') ->
+  List.NoDup (map fst acc ++ map fst ts) ->
+  List.NoDup (map fst acc') /\ forall n, In n (map fst acc') -> In n (map fst acc) \/ In n (map fst ts).
+Proof.
+  intros env lib. induction ts as [|[n b] rest IH]; intros acc reps acc' reps' H Hnd; simpl in H.
+  - inversion H; subst. simpl in Hnd. rewrite app_nil_r in Hnd. split; [done|]. intros n Hn. by left.
+  - simpl in Hnd. destruct (Desugar.desugar_template env lib b) as [nb|r|s|] eqn:Hd; try discriminate H.
+    + destruct (IH _ _ _ _ H) as [I1 I2].
+      { rewrite map_app. simpl. by rewrite <- app_assoc. }
+      split; [done|]. intros n0 Hn0. destruct (I2 n0 Hn0) as [Ha|Ha]; [|right; by right].
+      rewrite map_app in Ha. apply in_app_or in Ha as [Ha|[<-|[]]]; [by left|right; by left].
+    + destruct (IH _ _ _ _ H) as [I1 I2]; [by apply List.NoDup_remove_1 in Hnd|].
+      split; [done|]. intros n0 Hn0. destruct (I2 n0 Hn0) as [Ha|Ha]; [by left|right; by right].
+Qed.
+
+Lemma desugar_functions_names : forall fs acc reps acc' reps',
+  Desugar.desugar_functions fs acc reps = Desugar.DOk (acc', reps') ->
+  List.NoDup (map fst acc ++ map fst fs) ->
+  List.NoDup (map fst acc') /\ forall n, In n (map fst acc') -> In n (map fst acc) \/ In n (map fst fs).
+Proof.
+  induction fs as [|[n b] rest IH]; intros acc reps acc' reps' H Hnd; simpl in H.
+  - inversion H; subst. simpl in Hnd. rewrite app_nil_r in Hnd. split; [done|]. intros n Hn. by left.
+  - simpl in Hnd. apply DesugarProofs.dbind_ok in H. destruct H as (c & Hc & H). destruct c as [rs|].
+    + destruct (IH _ _ _ _ H) as [I1 I2]; [by apply List.NoDup_remove_1 in Hnd|].
+      split; [done|]. intros n0 Hn0. destruct (I2 n0 Hn0) as [Ha|Ha]; [by left|right; by right].
+    + destruct (IH _ _ _ _ H) as [I1 I2].
+      { rewrite map_app. simpl. by rewrite <- app_assoc. }
+      split; [done|]. intros n0 Hn0. destruct (I2 n0 Hn0) as [Ha|Ha]; [|right; by right].
+      rewrite map_app in Ha. apply in_app_or in Ha as [Ha|[<-|[]]]; [by left|right; by left].
+Qed.
+
+Theorem remove_syntactic_sugar_names : forall lib ts fs d,
+  Desugar.remove_syntactic_sugar lib ts fs = Desugar.DOk d ->
+  (List.NoDup (map fst ts) ->
+     List.NoDup (map fst (Desugar.d_templates d)) /\
+     forall n, In n (map fst (Desugar.d_templates d)) -> In n (map fst ts)) /\
+  (List.NoDup (map fst fs) ->
+     List.NoDup (map fst (Desugar.d_functions d)) /\
+     forall n, In n (map fst (Desugar.d_functions d)) -> In n (map fst fs)).
+Proof.
+  intros lib ts fs d H. unfold Desugar.remove_syntactic_sugar in H.
+  apply DesugarProofs.dbind_ok in H. destruct H as ([ts' reps1] & Ht & H).
+  apply DesugarProofs.dbind_ok in H. destruct H as ([fs' reps2] & Hf & H). inversion H; subst; clear H. simpl.
+  split; intros Hnd.
+  - destruct (desugar_templates_names _ _ _ _ _ _ _ Ht Hnd) as [H1 H2]. split; [done|].
+    intros n Hn. by destruct (H2 n Hn) as [[]|].
+  - destruct (desugar_functions_names _ _ _ _ _ Hf Hnd) as [H1 H2]. split; [done|].
+    intros n Hn. by destruct (H2 n Hn) as [[]|].
+Qed.
+
+(* the entries of the new map: at most one per name handed back, under that name *)
+Lemma survivors_names (defs : list PM.definition) : forall kept : list (String.string * Ast.statement),
+  List.NoDup (map fst kept) ->
+  List.NoDup (map PM.d_name (survivors defs kept)) /\
+  forall n, In n (map PM.d_name (survivors defs kept)) -> In n (map fst kept).
+Proof.
+  induction kept as [|[n b] kept IH]; intros Hnd; simpl; [split; [constructor|intros ? []]|].
+  simpl in Hnd. inversion Hnd as [|? ? Hn Hk]; subst. destruct (IH Hk) as [I1 I2].
+  destruct (find_definition n defs) as [d|] eqn:E; simpl.
+  - apply find_definition_some in E as [_ E]. rewrite E. split.
+    + constructor; [|done]. intros Hin. apply Hn. by apply I2.
+    + intros n0 [<-|Hn0]; [by left|right; by apply I2].
+  - split; [done|]. intros n0 Hn0. right. by apply I2.
+Qed.
+
+Lemma named_bodies_names (l : list PM.definition) : map fst (PM.named_bodies l) = map PM.d_name l.
+Proof. unfold PM.named_bodies. rewrite map_map. reflexivity. Qed.
+
+Lemma NoDup_app_disjoint {A} (l k : list A) :
+  List.NoDup l -> List.NoDup k -> (forall x, In x l -> ~ In x k) -> List.NoDup (l ++ k).
+Proof.
+  induction l as [|x l IH]; intros Hl Hk Hd; simpl; [done|].
+  inversion Hl as [|? ? Hx Hl']; subst. constructor.
+  - intros Hin. apply in_app_or in Hin as [Hin|Hin]; [done|]. apply (Hd x); [by left|done].
+  - apply IH; [done|done|]. intros y Hy. apply Hd. by right.
+Qed.
+
+(* one name space: no name is the name of a function and of a template of the library *)
+Theorem handed_on_names_NoDup lib all sd :
+  sugar_input (program_of lib all) = Desugar.DOk sd ->
+  List.NoDup (map PM.d_name (handed_on (program_of lib all) sd)).
+Proof.
+  intros Hs. unfold sugar_input in Hs. destruct (library_keeps_first all) as (_ & Hnd & _).
+  destruct (remove_syntactic_sugar_names _ _ _ _ Hs) as [HT HF]. rewrite named_bodies_names in HT, HF.
+  simpl in HT, HF.
+  destruct (HT (NoDup_map_filter PM.d_name _ _ Hnd)) as [T1 T2].
+  destruct (HF (NoDup_map_filter PM.d_name _ _ Hnd)) as [F1 F2].
+  unfold handed_on. simpl.
+  destruct (survivors_names (List.filter is_function (keep_first all)) _ F1) as [SF1 SF2].
+  destruct (survivors_names (List.filter (fun d => negb (is_function d)) (keep_first all)) _ T1) as [ST1 ST2].
+  rewrite map_app. apply NoDup_app_disjoint; [done|done|].
+  intros n Hf Ht.
+  apply SF2, F2, in_map_iff in Hf as (d1 & Hn1 & Hd1). apply ST2, T2, in_map_iff in Ht as (d2 & Hn2 & Hd2).
+  apply filter_In in Hd1 as [Hd1 Hk1]. apply filter_In in Hd2 as [Hd2 Hk2].
+  pose proof (find_definition_member _ _ Hd1 Hnd) as E1. pose proof (find_definition_member _ _ Hd2 Hnd) as E2.
+  rewrite Hn1 in E1. rewrite Hn2 in E2. rewrite E1 in E2. inversion E2; subst. by rewrite Hk1 in Hk2.
+Qed.
+
+(* ====================================================================== *)
 (* the project tied to the files that were read                             *)
 (* ====================================================================== *)
 
@@ -271,6 +384,9 @@ Section Tied.
     Variable argv libs : list path.
     Variable s : parse_state (path:=path).
     Hypothesis Hrun : parse_files false dfuel fuel argv libs = Base.Ok s.
+    (* no directory was met twice while the command line was expanded (Model.Includes.dirs_revisited, evaluated on
+       every run) *)
+    Hypothesis Hrev : dirs_revisited canon is_dir read_dir join ext_circom dfuel argv libs = false.
 
     Variable lib : list (list N).
     Variable defs_of : path -> list PM.definition.
@@ -312,7 +428,7 @@ Section Tied.
       intros Hwf Hord Hev Hal. apply tied_event_general in Hev.
       exact (failure_classes_reported canon is_dir is_file read_dir join parent file_name ext_circom starts_dot has_sep
                content canon_idem pf_id pf_name payload pragma has_main cv cs spay ord horder prime kv kd err_file name_id
-               after dfuel fuel argv libs s Hrun pr sd rest Hsugar o order c r Hwf Hord Hev Hal).
+               after dfuel fuel argv libs s Hrun Hrev pr sd rest Hsugar o order c r Hwf Hord Hev Hal).
     Qed.
 
     (* the form of the report per class *)
@@ -378,7 +494,7 @@ Section Tied.
       pose proof (Hkf l1 d l3 Hsplit Hfirst) as Hkept.
       destruct (clean_only_if_stages_passed canon is_dir is_file read_dir join parent file_name ext_circom starts_dot
                   has_sep content canon_idem pf_id pf_name payload pragma has_main cv cs spay ord horder prime kv kd
-                  err_file name_id after dfuel fuel argv libs s Hrun pr sd rest Hsugar o order Hwf Hord Hex Hal)
+                  err_file name_id after dfuel fuel argv libs s Hrun Hrev pr sd rest Hsugar o order Hwf Hord Hex Hal)
         as [(_ & _ & HT & HF) Hdefs].
       assert (Hb : body_in_file (N.of_nat i) (PM.d_body d)) by (by apply Hbody).
       assert (Hon : exists b, In (with_body d b) (handed_on pr sd)).
@@ -421,7 +537,7 @@ Section Tied.
     Proof.
       exact (front_failures_have_reports canon is_dir is_file read_dir join parent file_name ext_circom starts_dot
                has_sep content canon_idem pf_id pf_name payload pragma has_main cv cs spay ord horder prime kv kd
-               err_file dfuel fuel argv libs s Hrun pr sd rest Hsugar).
+               err_file dfuel fuel argv libs s Hrun Hrev pr sd rest Hsugar).
     Qed.
 
     Theorem tied_clean_only_if_all_read_and_analysed o order :
@@ -439,7 +555,7 @@ Section Tied.
     Proof.
       exact (clean_only_if_all_read_and_analysed canon is_dir is_file read_dir join parent file_name ext_circom
                starts_dot has_sep content canon_idem pf_id pf_name payload pragma has_main cv cs spay ord horder prime
-               kv kd err_file name_id after dfuel fuel argv libs s Hrun pr sd rest Hsugar o order).
+               kv kd err_file name_id after dfuel fuel argv libs s Hrun Hrev pr sd rest Hsugar o order).
     Qed.
 
     Theorem tied_clean_only_if_stages_passed o order :
@@ -458,7 +574,74 @@ Section Tied.
     Proof.
       exact (clean_only_if_stages_passed canon is_dir is_file read_dir join parent file_name ext_circom starts_dot
                has_sep content canon_idem pf_id pf_name payload pragma has_main cv cs spay ord horder prime kv kd
-               err_file name_id after dfuel fuel argv libs s Hrun pr sd rest Hsugar o order).
+               err_file name_id after dfuel fuel argv libs s Hrun Hrev pr sd rest Hsugar o order).
     Qed.
+    (* ---- the project of a run is well formed ---- *)
+    (* one definition per (kind, name) key: the keys are the images under [name_id] of the names handed on, which
+       are pairwise different (handed_on_names_NoDup) *)
+    Theorem tied_project_is_wf :
+      (forall a b : String.string, name_id a = name_id b -> a = b) ->
+      wf_project (tied_project s lib defs_of sd rest').
+    Proof.
+      intros Hinj. unfold wf_project. simpl. unfold stage_defs. rewrite map_map.
+      pose proof (handed_on_names_NoDup lib all sd Hsugar) as Hnd. revert Hnd.
+      generalize (handed_on pr sd). intros l. induction l as [|d l IH]; intros Hnd; simpl; [constructor|].
+      simpl in Hnd. inversion Hnd as [|? ? Hd Hl]; subst. constructor; [|by apply IH].
+      intros Hin. apply in_map_iff in Hin as (x & Hk & Hx). apply Hd.
+      rewrite !stage_def_key in Hk. apply (f_equal snd) in Hk. simpl in Hk. apply Hinj in Hk as Hn. rewrite <- Hn. by apply in_map.
+    Qed.
+
+    (* ---- the theorems about a run, under the injectivity of [name_id] ---- *)
+    Theorem inj_classes_reported o order c r :
+      (forall a b : String.string, name_id a = name_id b -> a = b) ->
+      analysis_order (tied_project s lib defs_of sd rest') order ->
+      failure_event_tied argv libs s lib defs_of sd rest' c r ->
+      ~ In (r_id r) (o_allow o) ->
+      In r (res_shown (run_keys (tied_project s lib defs_of sd rest') o order)) /\ r_level r = Error /\
+      res_exit (run_keys (tied_project s lib defs_of sd rest') o order) = 1%Z.
+    Proof. intros Hinj. exact (tied_classes_reported o order c r (tied_project_is_wf Hinj)). Qed.
+
+    Theorem inj_clean_only_if_all_read_and_analysed o order :
+      (forall a b : String.string, name_id a = name_id b -> a = b) ->
+      analysis_order (tied_project s lib defs_of sd rest') order ->
+      res_exit (run_keys (tied_project s lib defs_of sd rest') o order) = 0%Z ->
+      ~ In pf_id (o_allow o) ->
+      all_named_read argv libs s /\
+      (forall d, In d (stage_defs pf_id pf_name cs spay ord horder prime kv kd err_file name_id after pr sd) ->
+         file_is_named argv s (d_file d) ->
+         In (MAnalyzing (d_key d)) (res_log (run_keys (tied_project s lib defs_of sd rest') o order)) /\
+         (forall e, d_err d = Some e -> r_level e = Error ->
+                    not_in_included_only canon is_dir read_dir join ext_circom argv s e ->
+                    In (r_id e) (o_allow o))).
+    Proof. intros Hinj. exact (tied_clean_only_if_all_read_and_analysed o order (tied_project_is_wf Hinj)). Qed.
+
+    Theorem inj_clean_only_if_stages_passed o order :
+      (forall a b : String.string, name_id a = name_id b -> a = b) ->
+      analysis_order (tied_project s lib defs_of sd rest') order ->
+      res_exit (run_keys (tied_project s lib defs_of sd rest') o order) = 0%Z ->
+      (forall z, In z (stage_ids cs) -> ~ In z (o_allow o)) ->
+      all_stages_passed argv libs s pr sd /\
+      (forall dd, In dd (handed_on pr sd) -> def_in_named_file argv s dd ->
+         In (MAnalyzing (runner_kind (PM.d_kind dd), name_id (PM.d_name dd)))
+            (res_log (run_keys (tied_project s lib defs_of sd rest') o order)) /\
+         (LiftFull.is_block (PM.d_body dd) = true -> List.NoDup (PM.d_params dd)) /\
+         (forall e, lift_outcome dd = Some e -> e <> LEParamCollision ->
+                    err_file dd = None \/ err_file dd = PM.d_pfile dd ->
+                    In (r_id (item_report (SILiftError dd e (err_file dd)))) (o_allow o))).
+    Proof. intros Hinj. exact (tied_clean_only_if_stages_passed o order (tied_project_is_wf Hinj)). Qed.
+
+    Theorem inj_clean_only_if_every_definition_analysed o order :
+      (forall a b : String.string, name_id a = name_id b -> a = b) ->
+      analysis_order (tied_project s lib defs_of sd rest') order ->
+      res_exit (run_keys (tied_project s lib defs_of sd rest') o order) = 0%Z ->
+      (forall z, In z (stage_ids cs) -> ~ In z (o_allow o)) ->
+      ~ In (c_id (c_same_symbol cs)) (o_allow o) ->
+      defs_file_ok content s defs_of ->
+      bodies_in_file content s defs_of ->
+      forall i f u d,
+        ps_files s !! i = Some (f, u) -> named argv f -> parses f = true -> In d (defs_of f) ->
+        In (MAnalyzing (runner_kind (PM.d_kind d), name_id (PM.d_name d)))
+           (res_log (run_keys (tied_project s lib defs_of sd rest') o order)).
+    Proof. intros Hinj. exact (clean_only_if_every_definition_analysed o order (tied_project_is_wf Hinj)). Qed.
   End Run.
 End Tied.
